@@ -33,6 +33,7 @@ def explore(res, rng, n, exhaustive=None):
             cases.append(([0] + [v + 0 for v in h] + [0], 0))
     cyc.micro_stream(res, ['rychlik', 'johannesson'], rng, max(30, n // 25), lambda name, h, out: (f'c06jo {enc_list(h)} {enc_cycs(out["seq"])}' if name == 'johannesson' else None))
     cyc.extreme_scale_stream(res, ['rychlik', 'johannesson'], rng, max(12, n // 60))
+    cyc.narrow_dtype_stream(res, ['rychlik', 'johannesson'], rng, max(10, n // 80))
     reqs, meta = [], []
     for h, s in cases:
         if len(h) < 2:
